@@ -64,7 +64,28 @@ type caseInput struct {
 type batch struct {
 	sp     int
 	lo, hi int64
-	notrip bool
+	trip   int // fast-path escalation level: index into tripLevels
+}
+
+// CPU time (microseconds) a single decoder call may take in a bulk worker before the access to its
+// input is revoked (the worker repeats such a case before it calls it a hang candidate, see
+// worker.go); a batch with a candidate that turns out not to hang on its own is run again with the
+// fast path off (0), when only the parent's watchdog remains.
+func tripLevels() [2]int {
+	return [2]int{envInt("C01_TRIP_US", 300), 0}
+}
+
+func (b batch) escalated() batch {
+	b.trip = 1
+	return b
+}
+
+var debugOn = os.Getenv("C01_DEBUG") != ""
+
+func debugf(f string, a ...interface{}) {
+	if debugOn {
+		fmt.Fprintf(os.Stderr, "c01 "+time.Now().Format("15:04:05.000")+" "+f+"\n", a...)
+	}
 }
 
 type spaceAgg struct {
@@ -209,12 +230,32 @@ func (p *parent) confirm(sp int, idx int64) (kind, detail string, res singleRes)
 	return "", "", rs[0]
 }
 
+// publishLoopers rewrites the file the workers read the confirmed looping functions from
+// (confirmMu held).
+func (p *parent) publishLoopers() {
+	var fns []string
+	for fn := range p.loopers {
+		fns = append(fns, fn)
+	}
+	sort.Strings(fns)
+	tmp := filepath.Join(p.tmp, "loopers.new")
+	if os.WriteFile(tmp, []byte(strings.Join(fns, "\n")+"\n"), 0o600) == nil {
+		os.Rename(tmp, filepath.Join(p.tmp, "loopers"))
+	}
+}
+
 func (p *parent) reportHang(looper string, count int64, sp int, idx int64, res singleRes) string {
 	ac, in := p.describe(sp, idx)
 	if looper == "" {
 		looper = decoderOf(ac.kind, ac.x)
 	}
 	class := "C01:hang:" + looper
+	p.confirmMu.Lock()
+	if p.loopers[looper] == "" {
+		p.loopers[looper] = class
+		p.publishLoopers()
+	}
+	p.confirmMu.Unlock()
 	msg := fmt.Sprintf("%s(%s) (%d octets) does not return: it ran for %d ms without returning in two separate processes; the goroutine loops in %s (innermost library function common to %d stack samples; last sample, outermost first: %s)",
 		in.Entry, in.Hex, in.Len, singleLimit, looper, res.Samples, strings.Join(res.Frames, " > "))
 	p.addViolation(class, count, sp, idx, msg, goTestHang(ac.kind, ac.x))
@@ -250,6 +291,8 @@ func (p *parent) resolveTrip(key string, sp int, idx int64) string {
 	cl := "C01:hang:" + looper
 	p.loopers[looper] = cl
 	p.frameClass[key] = cl
+	p.publishLoopers()
+	debugf("hang confirmed: %s loops in %s", in.Hex, looper)
 	return cl
 }
 
@@ -263,7 +306,7 @@ func (p *parent) runBatch(w **proc, shard int, b batch) {
 	defer p.batchDone()
 	for attempt := 0; ; attempt++ {
 		if *w == nil {
-			nw, err := spawnWorker(p.exe, p.tier, filepath.Join(p.tmp, fmt.Sprintf("progress-%d", shard)), p.c.fp, len(p.sps))
+			nw, err := spawnWorker(p.exe, p.tier, filepath.Join(p.tmp, fmt.Sprintf("progress-%d", shard)), filepath.Join(p.tmp, "loopers"), p.c.fp, len(p.sps))
 			if err != nil {
 				p.infraErr("cannot start a worker: " + err.Error())
 				return
@@ -271,15 +314,11 @@ func (p *parent) runBatch(w **proc, shard int, b batch) {
 			*w = nw
 			p.stat("worker_starts", 1)
 		}
-		nt := 0
-		if b.notrip {
-			nt = 1
-		}
-		fmt.Fprintf((*w).in, "B %d %d %d %d\n", b.sp, b.lo, b.hi, nt)
+		fmt.Fprintf((*w).in, "B %d %d %d %d\n", b.sp, b.lo, b.hi, tripLevels()[b.trip])
 		var viols []vagg
 		var trips []tripLine
 		var rej []int64
-		var evals, success, ident int64
+		var evals, success, ident, spurious int64
 		done, failed, why := false, false, ""
 		timer := time.NewTimer(stallLimit())
 		for !done && !failed {
@@ -314,12 +353,18 @@ func (p *parent) runBatch(w **proc, shard int, b batch) {
 						}
 						trips = append(trips, t)
 					}
+				case strings.HasPrefix(ln, "C "):
+					if f := strings.SplitN(ln, " ", 3); len(f) == 3 {
+						var i int64
+						fmt.Sscan(f[1], &i)
+						go p.resolveTrip(f[2], b.sp, i) // confirm while the worker goes on
+					}
 				case strings.HasPrefix(ln, "X "):
 					var i int64
 					fmt.Sscan(ln[2:], &i)
 					rej = append(rej, i)
 				case strings.HasPrefix(ln, "D "):
-					fmt.Sscan(ln[2:], &evals, &success, &ident)
+					fmt.Sscan(ln[2:], &evals, &success, &ident, &spurious)
 					done = true
 				default:
 					failed, why = true, "said "+ln
@@ -337,7 +382,8 @@ func (p *parent) runBatch(w **proc, shard int, b batch) {
 				classes[i] = p.resolveTrip(t.key, b.sp, t.idx)
 				if classes[i] == "" {
 					p.stat("fast_trips_not_confirmed", t.count)
-					p.requeue(batch{b.sp, b.lo, b.hi, true}) // again, without the fast path
+					debugf("trip not confirmed: %s case %d level %d stack %s", p.sps[b.sp].name, t.idx, b.trip, t.key)
+					p.requeue(b.escalated()) // again, with a more patient fast path
 					return
 				}
 				hangs += t.count
@@ -358,6 +404,7 @@ func (p *parent) runBatch(w **proc, shard int, b batch) {
 				p.rejected = append(p.rejected, p.c.seeds[p.sps[b.sp].s0+int(i)].name)
 			}
 			p.stats["fast_trips"] += hangs
+			p.stats["fast_trips_not_repeated"] += spurious
 			p.mu.Unlock()
 			return
 		}
@@ -366,6 +413,7 @@ func (p *parent) runBatch(w **proc, shard int, b batch) {
 		stderr := (*w).kill()
 		*w = nil
 		p.stat("worker_failures", 1)
+		debugf("worker %s: %s batch [%d:%d) level %d, was on case %d", why, p.sps[b.sp].name, b.lo, b.hi, b.trip, idx)
 		if idx < b.lo || idx >= b.hi {
 			if attempt >= 2 {
 				p.infraErr(fmt.Sprintf("worker %s outside any case of batch %s[%d:%d] three times; stderr: %s", why, p.sps[b.sp].name, b.lo, b.hi, tail(stderr, 600)))
@@ -382,7 +430,7 @@ func (p *parent) runBatch(w **proc, shard int, b batch) {
 			p.agg[b.sp].hangs++
 			p.stats["watchdog_hangs"]++
 			p.mu.Unlock()
-			p.requeue(batch{b.sp, b.lo, idx, b.notrip}, batch{b.sp, idx + 1, b.hi, b.notrip})
+			p.requeue(batch{b.sp, b.lo, idx, b.trip}, batch{b.sp, idx + 1, b.hi, b.trip})
 		case "crash":
 			ac, in := p.describe(b.sp, idx)
 			fn := crashFunction(detail)
@@ -395,7 +443,7 @@ func (p *parent) runBatch(w **proc, shard int, b batch) {
 			p.mu.Lock()
 			p.agg[b.sp].evals++
 			p.mu.Unlock()
-			p.requeue(batch{b.sp, b.lo, idx, b.notrip}, batch{b.sp, idx + 1, b.hi, b.notrip})
+			p.requeue(batch{b.sp, b.lo, idx, b.trip}, batch{b.sp, idx + 1, b.hi, b.trip})
 		default:
 			p.mu.Lock()
 			p.stats["worker_failures_not_reproduced"]++
@@ -405,7 +453,7 @@ func (p *parent) runBatch(w **proc, shard int, b batch) {
 				p.infraErr(fmt.Sprintf("worker %s on %s case %d, which runs fine on its own (more than %d such failures); stderr: %s", why, p.sps[b.sp].name, idx, maxUnrepro, tail(stderr, 600)))
 				return
 			}
-			p.requeue(batch{b.sp, b.lo, b.hi, true})
+			p.requeue(b.escalated())
 		}
 		return
 	}
@@ -461,7 +509,7 @@ func run(r *enumlib.Run) {
 			if hi > sp.size {
 				hi = sp.size
 			}
-			p.batches = append(p.batches, batch{sp.id, lo, hi, false})
+			p.batches = append(p.batches, batch{sp.id, lo, hi, 0})
 		}
 	}
 	r.Parallel(func(shard, n int) {
